@@ -54,6 +54,10 @@ type RunSpec struct {
 	Steps   []Step  `json:"steps,omitempty"` // when set: replay exactly these (prefix included)
 	// Truncate the generated schedule after this many chaos steps (0: no limit)
 	NoQuiesce bool `json:"no_quiesce,omitempty"`
+	// RefSteps, when set, is the fault-free reference schedule of a fault-sweep
+	// run: both are executed and their final states compared (C09).
+	RefSteps  []Step `json:"ref_steps,omitempty"`
+	PureFault bool   `json:"pure_fault,omitempty"`
 }
 
 // Result is what a run reports.
@@ -72,6 +76,17 @@ type Result struct {
 	Harness    string         `json:"harness_error,omitempty"`
 	Nontrivial bool           `json:"nontrivial"`
 	Final      []string       `json:"final,omitempty"`
+	Dump       string         `json:"-"`
+	Releases   []RelInfo      `json:"-"`
+}
+
+// RelInfo says which call a release step released (used by the fault sweep).
+type RelInfo struct {
+	Step  int
+	Rec   int
+	Write bool
+	Desc  string
+	Last  bool // the reconcile finished with this release
 }
 
 // RunOne executes spec inside a fresh bubble.
@@ -173,6 +188,8 @@ func runInBubble(spec RunSpec, res *Result) {
 	}
 	res.Nontrivial = s.Counters["writes.controller"] > 0
 	res.Final = s.describeState()
+	res.Dump = s.finalDump()
+	res.Releases = s.Releases
 }
 
 func tail(l []string, n int) []string {
